@@ -10,6 +10,7 @@
 #include <cstdlib>
 #include <cstring>
 #include <dlfcn.h>
+#include <execinfo.h>
 #include <fcntl.h>
 #include <linux/futex.h>
 #include <map>
@@ -38,6 +39,7 @@ static std::map<std::pair<int, uint64_t>, int> rep_devs;
 static std::map<std::tuple<int, int, uint64_t>, int64_t> rep_faults;
 std::map<std::string, long> param_override;
 static uint64_t g_timeout_s = 60;
+static int out_fd_dbg = 2;
 static int g_parkspin = 4000;
 
 // ---------------------------------------------------------------- PRNG
@@ -84,6 +86,12 @@ static void describe_threads(char* buf, size_t cap) {
     o += snprintf(buf + o, cap - o, " | T%d h%d %s%s obj=%lx ops=%lu", i, t.host, stname(t.st),
                   t.st == RUNNABLE ? (t.hook ? "(spin-hook)" : t.spinning ? "(spin)" : "") : "", (unsigned long)t.waitobj, (unsigned long)t.ops);
   }
+  if (W->nhosts > 1) {
+    int shown = 0, unmatched = 0;
+    for (int i = 0; i < W->nmsg; i++) if (!W->msgs[i].matched) unmatched++;
+    o += snprintf(buf + o, cap - o, " || simMPI: %d messages sent, %d unmatched", W->nmsg, unmatched);
+    for (int i = 0; i < W->nmsg && shown < 8 && o + 80 < cap; i++) if (!W->msgs[i].matched) { Msg& m = W->msgs[i]; o += snprintf(buf + o, cap - o, " [#%d %d->%d tag %d len %d sync %d deliver@%lu]", i, m.src, m.dst, m.tag, m.len, m.sync, (unsigned long)m.deliver_at); shown++; }
+  }
 }
 [[noreturn]] static void die_run(int code) {
   // make sure nobody else proceeds: we hold the baton and never pass it
@@ -102,9 +110,28 @@ static void describe_threads(char* buf, size_t cap) {
     va_list ap; va_start(ap, fmt);
     vsnprintf(W->msg, sizeof W->msg, fmt, ap);
     va_end(ap);
-    if (!strncmp(vclass, "liveness", 8)) describe_threads(W->msg, sizeof W->msg);
+    if (!strncmp(vclass, "liveness", 8)) {
+      describe_threads(W->msg, sizeof W->msg);
+      size_t o = strlen(W->msg);
+      o += snprintf(W->msg + o, sizeof W->msg - o, " || running T%d stack:", me);
+      // frame-pointer walk (everything is built with -fno-omit-frame-pointer); stops at the first implausible frame
+      uintptr_t* fp = (uintptr_t*)__builtin_frame_address(0);
+      for (int i = 0; i < 16 && fp && o + 20 < sizeof W->msg; i++) {
+        uintptr_t ret = fp[1], next = fp[0];
+        if (ret < 0x1000) break;
+        o += snprintf(W->msg + o, sizeof W->msg - o, " %p", (void*)ret);
+        if (next <= (uintptr_t)fp || next - (uintptr_t)fp > (1u << 20)) break;
+        fp = (uintptr_t*)next;
+      }
+    }
   }
   W->active = 0;
+  if (getenv("VSIM_HANG_ON_VIOLATION")) {   // debugging aid: keep every process alive for gdb -p
+    char b[256]; int n = snprintf(b, sizeof b, "galsim: violation in pid %d (host %d); host pids:", (int)getpid(), myhost);
+    for (int h = 0; h < W->nhosts; h++) n += snprintf(b + n, sizeof b - n, " %d", (int)W->hostpid[h]);
+    b[n++] = '\n'; if (::write(out_fd_dbg, b, n)) {}
+    for (;;) pause();
+  }
   die_run(42);
 }
 
@@ -232,6 +259,7 @@ void pre(int kind, const void* addr) {
     lid = it->second.first;
   }
   w->hash = (w->hash ^ ((uint64_t)me * 1315423911ull + (uint64_t)kind * 2654435761ull + lid)) * 1099511628211ull;
+  w->T[me].last_addr = (uintptr_t)addr;
   if (w->step > w->budget1) {
     if (!w->fair_mode) enter_fair_mode();
     else if (w->step > 2 * w->budget1)
@@ -250,8 +278,16 @@ void pre(int kind, const void* addr) {
 }
 void post(bool changed) {
   Th& t = W->T[me];
-  if (changed) { t.spin = 0; wrote(); }
-  else if (++t.spin >= SPIN_K) t.spinning = 1;
+  if (changed) { t.spin = 0; wrote(); return; }
+  // a non-writing operation counts towards "spinning" only if it re-reads a location this thread has read recently:
+  // long read-only scans over many distinct locations are progress, not a spin loop
+  uintptr_t a = t.last_addr;
+  if (a) {
+    bool seen = false;
+    for (int i = 0; i < 64; i++) if (t.recent[i] == a) { seen = true; break; }
+    if (!seen) { t.recent[t.recent_pos++ & 63] = a; if (t.spin > 0) t.spin--; return; }
+  }
+  if (++t.spin >= SPIN_K) t.spinning = 1;
 }
 void block(int st, uintptr_t obj) {
   W->T[me].st = st; W->T[me].waitobj = obj;
